@@ -73,7 +73,7 @@ pub fn run_check(ctx: &Ctx) -> i32 {
         .set("samples", json!([{"history": ["ArmP", "CsrP", "RootP", "AddNocP", "Tick"]}]))
         .set("rule", json!(format!("every history of at most {} operations of the C08 alphabet (incl. RemoveFabric of the own and of another fabric, fail-safe expiry by the clock / ArmFailSafe(0) / RevokeCommissioning, restart) from a factory-fresh node and a node with one fabric, and of at most {} operations from a node with two fabrics and from the middle of the commissioning of a first / a second fabric (NOC added, not completed); after every operation each usable secure session of the device must be bound to the existing fabric it was established for, and to none that the reference says is gone (rolled back or removed)", d1, d2)));
     ev.assume("operational sessions are set up by the harness (pre-established keys) as soon as a fabric exists, as a commissioner does before CommissioningComplete; session-resumption records and subscriptions of a removed fabric are not part of this check (no real CASE / subscription traffic in this world)");
-    if states < 20 {
+    if report.violations.is_empty() && (states < 20) {
         eprintln!("MACHINERY: vacuous C07 run");
         return 2;
     }
